@@ -229,6 +229,13 @@ theorem recurse_inv {code : Code} {cert : Cert} (hc : checkCert code cert = true
   rw [e1, e2] at key
   exact key
 
+theorem Rel.top_loop {cert : Cert} {id : Nat} {v r : Bool} {G : List FrameKind} {c e : Nat}
+    {fs : List RFrame} {k m : Nat} (h : Rel cert (.loopF id v r :: G) c e fs k m) :
+    ∃ v' r' ret fs', fs = .loopF v' r' ret :: fs' := by
+  cases h with
+  | plain _ _ _ _ => exact ⟨_, _, _, _, rfl⟩
+  | recur _ _ _ _ _ _ _ _ _ _ _ _ => exact ⟨_, _, _, _, rfl⟩
+
 theorem innermost_live {fs : List RFrame} {t : Nat} (h : innermostLoop fs = some (some t)) :
     t ∈ liveTargets fs := by
   induction fs with
@@ -337,23 +344,15 @@ theorem step_sound {code : Code} {cert : Cert} (hc : checkCert code cert = true)
           simp only [edges, Option.some.injEq] at hes; subst hes
           have h1 := hedge _ (List.Mem.head _)
           have h2 := hedge _ (List.Mem.tail _ (List.Mem.head _))
-          cases hrel with
-          | plain _ _ _ hrel' =>
-            apply sound_of_next (l := [⟨pc + 1, _, k, m⟩, ⟨tgt, _, k, m⟩])
-              (by simp [step, hi, VmState.fall, VmState.goto])
-            intro t ht
-            simp only [List.mem_cons, List.not_mem_nil, or_false] at ht
-            rcases ht with rfl | rfl
-            · exact ⟨_, h1, .plain id v r hrel'⟩
-            · exact ⟨_, h2, .plain id v r hrel'⟩
-          | recur _ _ rpc cap B0 B a1 a2 a3 a4 a5 a6 =>
-            apply sound_of_next (l := [⟨pc + 1, _, _, _⟩, ⟨tgt, _, _, _⟩])
-              (by simp [step, hi, VmState.fall, VmState.goto])
-            intro t ht
-            simp only [List.mem_cons, List.not_mem_nil, or_false] at ht
-            rcases ht with rfl | rfl
-            · exact ⟨_, h1, .recur id v rpc cap B0 B a1 a2 a3 a4 a5 a6⟩
-            · exact ⟨_, h2, .recur id v rpc cap B0 B a1 a2 a3 a4 a5 a6⟩
+          dsimp only at h1 h2
+          obtain ⟨v', r', ret, fs', rfl⟩ := hrel.top_loop
+          apply sound_of_next (l := [⟨pc + 1, .loopF v' r' ret :: fs', k, m⟩, ⟨tgt, .loopF v' r' ret :: fs', k, m⟩])
+            (by simp [step, hi, VmState.fall, VmState.goto])
+          intro t ht
+          simp only [List.mem_cons, List.not_mem_nil, or_false] at ht
+          rcases ht with rfl | rfl
+          · exact ⟨_, h1, hrel⟩
+          · exact ⟨_, h2, hrel⟩
     | pushDidNotIterate =>
       cases G with
       | nil => simp [edges] at hes
@@ -363,15 +362,12 @@ theorem step_sound {code : Code} {cert : Cert} (hc : checkCert code cert = true)
         | loopF id v r =>
           simp only [edges, Option.some.injEq] at hes; subst hes
           have h1 := hedge _ (List.Mem.head _)
-          cases hrel with
-          | plain _ _ _ hrel' =>
-            apply sound_of_next (l := [⟨pc + 1, _, k, m⟩]) (by simp [step, hi, VmState.fall])
-            intro t ht; simp only [List.mem_singleton] at ht; subst ht
-            exact ⟨_, h1, .plain id v r hrel'⟩
-          | recur _ _ rpc cap B0 B a1 a2 a3 a4 a5 a6 =>
-            apply sound_of_next (l := [⟨pc + 1, _, _, _⟩]) (by simp [step, hi, VmState.fall])
-            intro t ht; simp only [List.mem_singleton] at ht; subst ht
-            exact ⟨_, h1, .recur id v rpc cap B0 B a1 a2 a3 a4 a5 a6⟩
+          dsimp only at h1
+          obtain ⟨v', r', ret, fs', rfl⟩ := hrel.top_loop
+          apply sound_of_next (l := [⟨pc + 1, .loopF v' r' ret :: fs', k, m⟩])
+            (by simp [step, hi, VmState.fall])
+          intro t ht; simp only [List.mem_singleton] at ht; subst ht
+          exact ⟨_, h1, hrel⟩
     | popLoopFrame =>
       cases G with
       | nil => simp [edges] at hes
@@ -385,21 +381,18 @@ theorem step_sound {code : Code} {cert : Cert} (hc : checkCert code cert = true)
           · rename_i hcond
             simp only [Option.some.injEq] at hes; subst hes
             have h1 := hedge _ (List.Mem.head _)
+            dsimp only at h1
             cases hrel with
-            | plain _ _ _ hrel' =>
-              rename_i fs'
+            | @plain _ _ _ fs' _ _ _ _ _ hrel' =>
               apply sound_of_next (l := [⟨pc + 1, fs', k, m⟩]) (by simp [step, hi, VmState.fall])
               intro t ht; simp only [List.mem_singleton] at ht; subst ht
               exact ⟨_, h1, hrel'⟩
-            | recur _ _ rpc cap B0 B a1 a2 a3 a4 a5 a6 =>
-              rename_i fs' k0 m0
-              have hB0 : look cert id = some { frames := G', caps := c, escs := e } := by
-                by_contra hne
-                exact hcond ⟨rfl, hne⟩
+            | @recur _ _ _ fs' k0 m0 _ _ rpc cap B0 B a1 a2 a3 a4 a5 a6 =>
+              have hB0 : look cert id = some { frames := G', caps := c, escs := e } :=
+                Decidable.byContradiction (fun hne => hcond ⟨rfl, hne⟩)
               rw [a1] at hB0
               simp only [Option.some.injEq] at hB0
               subst hB0
-              simp only [Nat.sub_self, Nat.zero_add]
               cases cap with
               | false =>
                 apply sound_of_next (l := [⟨rpc, fs', k0, m0⟩]) (by simp [step, hi])
@@ -421,6 +414,7 @@ theorem step_sound {code : Code} {cert : Cert} (hc : checkCert code cert = true)
       · rename_i hc0
         simp only [Option.some.injEq] at hes; subst hes
         have h1 := hedge _ (List.Mem.head _)
+        dsimp only at h1
         have hws := hall _ _ h1
         simp only at hws h1
         obtain ⟨k', hk, hr⟩ := hrel.caps_down (code := code) (c - 1) (by omega) hws
@@ -440,6 +434,7 @@ theorem step_sound {code : Code} {cert : Cert} (hc : checkCert code cert = true)
       · rename_i he0
         simp only [Option.some.injEq] at hes; subst hes
         have h1 := hedge _ (List.Mem.head _)
+        dsimp only at h1
         have hws := hall _ _ h1
         simp only at hws h1
         obtain ⟨m', hm, hr⟩ := hrel.escs_down (code := code) (e - 1) (by omega) hws
